@@ -1056,6 +1056,12 @@ class Scheduler:
         self._jobs.clear()
         self._finalized_jobs.clear()
 
+        # Jobs of a previous execution that failed while they were still running will never report
+        # back to this one: forget the resource limits they held and the jobs that waited for them.
+        for limit_name in self.limits_used:
+            self.limits_used[limit_name] = 0
+        self._jobs_pending_limits.clear()
+
     def add_executor(self, executor: Executor) -> None:
         """
         Add executor to scheduler.
